@@ -121,9 +121,7 @@ pub mod proofs {
     #[kani::stub(alloc::alloc::dealloc_nonnull, c03_dealloc)]
     #[kani::unwind(6)]
     pub fn c03_seq_iterator_action() {
-        reg::init_globals();
-        let s = ok(Signals::new(&[libc::SIGHUP]));
-        assert!(s.is_some(), "C03: constructing Signals failed");
+        let s = crate::c09::mk_delivery(false);
         let fill: u32 = kani::any();
         kani::assume(fill <= libc::vshim::net::PAIR_CAP);
         unsafe { K::fds[5].fill = fill };
